@@ -5,6 +5,21 @@ HERE = os.path.dirname(os.path.dirname(os.path.abspath(__file__)))
 
 # id -> (engine, category, technique, level text, level note, design ref)
 CHECKS = {
+ "C06": ("ceremony", "exploration",
+   "proptest-generated ceremonies at WebAuthn / CTAP2 / U2F level; secret scanner over every rendering of every returned value against the secrets read back from the store (invariant oracle)",
+   "After each generated ceremony the harness reads the private scalar and both PRF secrets back from the store and searches them (and each 16-byte half) in JSON, CBOR, raw byte fields, U2F encodings and {:?}/{:#?} renderings of results, errors, get_info and stored passkeys: raw, and inside every decimal list, hex run and base64/base64url run decoded at every alignment; the attested COSE key must carry public parameters only. The scanner is self-tested on a planted secret in each representation before every run.",
+   "representations covered are exactly those of the statement (raw, hex, decimal list, base64, base64url); PRF outputs are not secrets",
+   "DESIGN.md §4 C06"),
+ "C15": ("hostile", "exploration",
+   "generated hostile inputs (arbitrary bytes and structured mutations of valid encodings from the C12/C13/C14/C16/C17 generators) for 24 decoder entry points, each case in an isolated worker process with panic, abort/stack-overflow, allocation and CPU-time oracles; ddmin minimisation of failures",
+   "Each case runs in a child process on an 8 MiB-stack thread under catch_unwind with a counting global allocator (requests above 64 MiB are served by mmap(MAP_NORESERVE) so a huge reservation is measured instead of aborting) and per-thread CPU accounting plus a 10 s CPU watchdog; the parent attributes a process death to the case that was started and restarts after it. A returned value or error is fine; a panic, abort, stack overflow, more than 8 MiB + 256 B/byte of memory or more than 250 ms + 20 us/byte of CPU (minimum of three runs) is a violation, minimised with ddmin in further child processes. Regression inputs for the repaired defects D7-D11 run first in every campaign.",
+   "'out of proportion' is a numeric threshold chosen by the harness; a wall-clock stall without CPU use is inconclusive, not a violation",
+   "DESIGN.md §4 C15"),
+ "C18": ("hostile", "exploration",
+   "differential testing: generated requests and authenticator states driven through <Authenticator as Ctap2Api> and through the direct methods on two authenticators built from the same description, in isolated worker processes (termination oracle)",
+   "For generated getInfo / makeCredential / getAssertion requests (valid and failing in every documented way), store contents, capabilities, hmac-secret configurations and user-validation behaviours, the trait call must terminate (a stack overflow or abort kills the worker and is attributed to the case) and agree with the direct call: same status byte on errors; same authenticator data, selected credential, user entity, extension outputs and a verifying signature on successes (registrations by shape, as keys and ids are random); same abstract store state, same user-validation call log and same sequence of store calls.",
+   "two separately built but identically described authenticators stand for 'an authenticator in the same state'",
+   "DESIGN.md §4 C18"),
  "C13": ("codec", "exploration",
    "proptest-generated CTAP2 message values against key tables transcribed from the specification (reference table), CBOR round-trip, injected unknown/duplicate/missing keys, and exhaustive enumeration of all 256 status bytes",
    "For the six message types, generated values with every optional member present/absent are serialised and re-read as generic CBOR: the top-level keys must be exactly the integers the specification assigns to the present members, ascending, each carrying the encoding of the member assigned to it; deserialising yields an equal message (order-normalised CBOR equality); unknown integer keys 0..255 and unknown text keys are ignored; every duplicated member and every removed required member is an error; absent options and all 8 partial option maps give up=true, rk=uv=false. All 256 status bytes are enumerated: conversion both ways, injectivity, the client mapping and an end-to-end Client::authenticate with a store double failing with that byte.",
